@@ -543,3 +543,26 @@ func VerifC16_AttestOddDuties() {
 	_, _ = e.s.Attest(context.Background(), d.duty)
 	vnd.Cover("C16.attest.survived")
 }
+
+// VerifC20_AttestedBounded: after a successful run for epoch e the attested
+// bookkeeping holds nothing older than e-1, whatever older epochs it held
+// before (skipped epochs, epochs whose attestations all failed).
+func VerifC20_AttestedBounded() {
+	optSimpleCommittees, optNoMissing, optNoZeroSig, optValidData, optEpochPresent = true, true, true, true, true
+	d := ndDuty(1)
+	e := newAttEnv(d, false)
+	epoch := phase0.Epoch(uint64(d.slot) / e.ct.SPE)
+	vnd.Assume(epoch >= 6)
+	const marker = phase0.ValidatorIndex(1 << 62)
+	for back := phase0.Epoch(1); back <= 5; back++ {
+		if vnd.Bool("older-epoch-present") {
+			e.s.attested[epoch-back] = map[phase0.ValidatorIndex]struct{}{marker: {}}
+		}
+	}
+	_, err := e.s.Attest(context.Background(), d.duty)
+	vnd.Assume(err == nil)
+	for k := range e.s.attested {
+		vnd.Assert(k+1 >= epoch, "C20.attested.nothing-older-than-previous-epoch-after-a-successful-run")
+	}
+	vnd.Cover("C20.attested.checked")
+}
